@@ -451,6 +451,13 @@ pub fn type_pair_family(k: usize, tier: Tier) -> Vec<String> {
             out.push(format!("{head}(xx : ({t1})) => (yy : ({t2}) = xx; 0)"));
         }
     }
+    // Indexes that are arithmetic stuck on parameters: p (n + n) against p (m + m) and the like.
+    let stuck_ints = ["n + n", "m + m", "n + m", "m + n", "n * n", "m * m", "n * m", "n - n", "m - m", "n", "m", "n + 1", "1 + n"];
+    for e1 in stuck_ints {
+        for e2 in stuck_ints {
+            out.push(format!("(pp : int -> type) => (n : int) => (m : int) => (mk : (kk : int) -> pp ({e1})) => (ww : pp ({e2}) = mk 3; 0)"));
+        }
+    }
     // Two terms of one kind K meeting under an opaque type constructor: accepted iff E1 and E2 are
     // convertible. `mk 3 : p E1` is obtained by instantiating a dependent codomain, so E1 has passed
     // through substitution before the comparison. Kinds: int, bool, int -> int, the polymorphic identity
